@@ -171,3 +171,16 @@ func (e *DB) NewIter(span Span, opts IterOptions) (*Iter, error) {
 	}
 	return &Iter{iter: &memIter{rows: e.pdb.view(span), pos: -1}}, nil
 }
+
+// ZZDump returns the committed rows of the store registered under path, in key order (harness helper).
+func ZZDump(path string) (keys [][]byte, values [][]byte) {
+	st := memStores[path]
+	if st == nil {
+		return nil, nil
+	}
+	for _, r := range st.rows {
+		keys = append(keys, memCopy(r.key))
+		values = append(values, memCopy(r.value))
+	}
+	return keys, values
+}
